@@ -147,24 +147,25 @@ Definition get_fill_pattern (s : bgi) : res (list N) :=
   else idx SITE_PATTERN_INDEX DEFAULT_FILL_PATTERNS (Z.of_N (fill_style s)).
 
 (* the row loop `for _ in rect.top()..bottom`; ystart accumulates window.width *)
-Fixpoint bar_rows_solid (n : nat) (scr : list N) (ystart ww : Z) (w : nat) (fillc : N) : res (list N) :=
+(* [len] is screen.len() (rows do not change it): a row that starts at or beyond it breaks out at its first pixel *)
+Fixpoint bar_rows_solid (n : nat) (scr : list N) (len ystart ww : Z) (w : nat) (fillc : N) : res (list N) :=
   match n with
   | O => Ok scr
   | S n' =>
-    let scr' := if ystart <? 0 then scr else row_fill scr (Z.to_nat ystart) (repeat fillc w) in
+    let scr' := if (ystart <? 0) || (len <=? ystart) then scr else row_fill scr (Z.to_nat ystart) (repeat fillc w) in
     ystart' <- chk (ystart + ww) ;;
-    bar_rows_solid n' scr' ystart' ww w fillc
+    bar_rows_solid n' scr' len ystart' ww w fillc
   end.
 
-Fixpoint bar_rows_pattern (n : nat) (scr : list N) (ystart ww : Z) (w : nat) (pattern : list N) (ypat : Z) (mask0 fillc bk : N)
+Fixpoint bar_rows_pattern (n : nat) (scr : list N) (len ystart ww : Z) (w : nat) (pattern : list N) (ypat : Z) (mask0 fillc bk : N)
   : res (list N) :=
   match n with
   | O => Ok scr
   | S n' =>
     pat <- idx SITE_PATTERN_INDEX pattern ypat ;;
-    let scr' := if ystart <? 0 then scr else row_fill scr (Z.to_nat ystart) (pat_vals w pat mask0 fillc bk) in
+    let scr' := if (ystart <? 0) || (len <=? ystart) then scr else row_fill scr (Z.to_nat ystart) (pat_vals w pat mask0 fillc bk) in
     ystart' <- chk (ystart + ww) ;;
-    bar_rows_pattern n' scr' ystart' ww w pattern (Z.rem (ypat + 1) 8) mask0 fillc bk
+    bar_rows_pattern n' scr' len ystart' ww w pattern (Z.rem (ypat + 1) 8) mask0 fillc bk
   end.
 
 (* Bgi::bar_rect *)
@@ -175,7 +176,7 @@ Definition bar_rect (s : bgi) (r : rect) : res bgi :=
   else _right <- chk (l + w) ;; _bottom <- chk (t + h) ;;
        m <- chk (t * win_w s) ;; ystart <- chk (m + l) ;;
        if (fill_style s =? 1)%N then
-         scr <- bar_rows_solid (Z.to_nat h) (screen s) ystart (win_w s) (Z.to_nat w) (fill_color s) ;;
+         scr <- bar_rows_solid (Z.to_nat h) (screen s) (Z.of_nat (length (screen s))) ystart (win_w s) (Z.to_nat w) (fill_color s) ;;
          Ok (upd_screen s scr)
        else
          pattern <- get_fill_pattern s ;;
@@ -183,7 +184,7 @@ Definition bar_rect (s : bgi) (r : rect) : res bgi :=
          if h <=? 0 then Ok s
          else let sh := Z.rem l 8 in
               if sh <? 0 then Panic SITE_SHIFT
-              else scr <- bar_rows_pattern (Z.to_nat h) (screen s) ystart (win_w s) (Z.to_nat w) pattern ypat
+              else scr <- bar_rows_pattern (Z.to_nat h) (screen s) (Z.of_nat (length (screen s))) ystart (win_w s) (Z.to_nat w) pattern ypat
                                            (N.shiftr 128 (Z.to_N sh)) (fill_color s) (bkcolor s) ;;
                    Ok (upd_screen s scr).
 
